@@ -341,6 +341,7 @@ type gxHarness struct {
 
 func (c *Ctx) newGxHarness() *gxHarness {
 	h := &gxHarness{c: c, m: newMach(c), tokTypes: map[string]int64{}}
+	h.m.maxDepth = 1200 // a level of parentheses takes the recursive descent through all its levels: 40 levels are legitimate input
 	h.newToken = c.MustFunc("tokenizers", "", "NewToken")
 	ctor := c.MustFunc(pkgParsers, "", "NewExpressionParser")
 	h.parseTokens = c.MustFunc(pkgParsers, "ExpressionParser", "ParseTokens")
@@ -571,6 +572,7 @@ func gxFamilies(thorough bool) []gxFamily {
 	}
 	recArgs(nil, 3)
 	fams = append(fams, gxFamily{"nested-calls", nested})
+	fams = append(fams, gxFamily{"long-flat-and-deep-sentences", gxLongSentences()})
 	// tokens of every other tokenizer category: nothing but words, keywords, symbols and constants is classified
 	fams = append(fams, gxFamily{"unclassifiable-tokens", []string{
 		// a token handed in as a keyword whose text is no letter-case variant of one (KELVIN SIGN is not a K)
@@ -627,6 +629,40 @@ func gxFamilies(thorough bool) []gxFamily {
 	return fams
 }
 
+// gxLongSentences: the grammar bounds neither the length of a sentence nor its nesting. Flat chains of 70 and
+// 130 operands - plain, indexed, called, parenthesised, signed, mixed - under operators of every level are
+// sentences with the left-associative post-order; so are 40 levels of parentheses, calls, indexes and
+// right-nested groups.
+func gxLongSentences() []string {
+	var out []string
+	names := []string{"a", "b", "c", "d"}
+	chain := func(n int, op string, operand func(i int) string) string {
+		var parts []string
+		for i := 0; i < n; i++ {
+			parts = append(parts, operand(i))
+		}
+		return strings.Join(parts, " "+op+" ")
+	}
+	plain := func(i int) string { return names[i%4] }
+	indexed := func(i int) string { return names[i%4] + " [ " + names[(i+1)%4] + " ]" }
+	called := func(i int) string { return "f ( " + names[i%4] + " )" }
+	grouped := func(i int) string { return "( " + names[i%4] + " )" }
+	signed := func(i int) string { return "- " + names[i%4] }
+	mixed := func(i int) string { return []func(int) string{indexed, called, grouped, signed, plain}[i%5](i) }
+	for _, n := range []int{70, 130} {
+		for _, op := range []string{"+", "*", "AND", "<", "^"} {
+			out = append(out, chain(n, op, plain))
+		}
+		out = append(out, chain(n, "+", indexed), chain(n, "-", called), chain(n, "*", grouped), chain(n, "+", signed))
+	}
+	out = append(out, chain(70, "OR", indexed), chain(70, "/", mixed))
+	nest := func(depth int, open, inner, close string) string {
+		return strings.Repeat(open+" ", depth) + inner + strings.Repeat(" "+close, depth)
+	}
+	out = append(out, nest(40, "(", "a", ")"), nest(40, "f (", "a", ")"), nest(40, "a [", "b", "]"), nest(40, "a + (", "b", ")"), nest(40, "f ( a [", "b", "] )"))
+	return out
+}
+
 type gxVerdict struct {
 	treeBad, langBad, undec string
 	posBad                  string
@@ -660,6 +696,9 @@ func (c *Ctx) gxRun() []*gxFamVerdict {
 		nw := 1
 		if len(f.items) > 2000 {
 			nw = 12
+		}
+		if f.name == "long-flat-and-deep-sentences" {
+			nw = 8 // few members, each of several hundred tokens
 		}
 		type res struct {
 			idx                     int
